@@ -455,7 +455,7 @@ def handle_rejections(ctx, results, rerun, self_desc=None, rerun_hist=None):
     return seen
 
 
-def self_test(ctx, module, cfg, trace_file, mutate, env=None, ncases=40, name="corrupt one recorded field"):
+def self_test(ctx, module, cfg, trace_file, mutate, env=None, ncases=40, name="corrupt one recorded field", tail=False):
     """Binding self-test: take the first cases of a recorded trace, corrupt it with mutate(list of dict)->list
     of dict (must really change something) and require that validation rejects it.  trace_file may be a list of
     files: the first one the mutation applies to is used."""
@@ -464,8 +464,11 @@ def self_test(ctx, module, cfg, trace_file, mutate, env=None, ncases=40, name="c
     for tf in files:
         lines = read_lines(tf)
         idx = [i for i, l in enumerate(lines) if '"ev":"Case"' in l]
-        end = idx[ncases] if len(idx) > ncases else len(lines)
-        recs = [json.loads(l) for l in lines[:end]]
+        if tail and len(idx) > ncases:      # the last ncases cases of the file instead of the first
+            recs = [json.loads(l) for l in lines[idx[-ncases]:]]
+        else:
+            end = idx[ncases] if len(idx) > ncases else len(lines)
+            recs = [json.loads(l) for l in lines[:end]]
         mut = mutate(copy.deepcopy(recs))
         if mut != recs:
             break
